@@ -270,6 +270,9 @@ func genC12Crash(r *rng, n int, w *bufio.Writer) {
 	r = eReseed(r)
 	for i := 0; i < n; i++ {
 		nl := 3 + r.n(30)
+		if r.chance(1, 12) {
+			nl = n2Count(r, 1, nil, 33, 400) // N2: long lists (more than 40 / 64 / 256 / 300 lines)
+		}
 		lines := make([]string, nl)
 		for j := range lines {
 			lines[j] = eGenLine(r)
@@ -402,6 +405,9 @@ func genC12Inert(r *rng, n int, w *bufio.Writer) {
 	r = eReseed(r)
 	for i := 0; i < n; i++ {
 		nl := 4 + r.n(24)
+		if r.chance(1, 15) {
+			nl = n2Count(r, 1, nil, 28, 300) // N2: long lists (more than 40 / 64 / 256 lines)
+		}
 		var lines []string
 		for len(lines) < nl {
 			l := eGenLine(r)
